@@ -34,6 +34,9 @@ def run(ctx):
     roots = model.api_roots()
     if fq not in roots:
         ctx.unk("C02.0", "a5.cell_to_lonlat is a5.core.cell.cell_to_lonlat", "a5/__init__.py", "public name resolves elsewhere; the analysis does not cover it")
+    # ---- C02.2: the two conversions answer from their arguments alone (no memo that can hold another argument's answer) ----
+    from . import purity
+    purity.no_stale_memo(ctx, "C02.2", [fq, "a5.core.cell.lonlat_to_cell"], "the cell a centre maps back to")
     interp = FloatInterp(model)
     res = interp.run(fi, {"cell_id": Top("any cell id")})
     ctx.analysed.update({"function": fq, "result": repr(res.items if isinstance(res, TupleV) else res)})
@@ -46,10 +49,14 @@ def run(ctx):
         return
     if lon.lo >= -180.0 - TOL and lon.hi <= 180.0 + TOL:
         ctx.ok("C02.1", f"{fq}: longitude lies in [-180, 180]", where, f"interval of the first component over all return paths: {lon!r}")
-    else:
+    elif (lon.hi > 180.0 + TOL and lon.hi_t) or (lon.lo < -180.0 - TOL and lon.lo_t):
         ctx.bad("C02.1", f"{fq}: longitude ranges over [{lon.lo:.6g}, {lon.hi:.6g}], not within [-180, 180]", where,
-                f"theta comes from math.atan2 (range [-pi, pi]); after the conversions on the return path the interval is {lon!r}; "
-                f"no operation on that path brings it back into [-180, 180] (e.g. the centre of Tokyo's cell comes out near -220)")
+                f"the bounds are values of one source ({lon.src or 'a constant'}) carried through monotone arithmetic to the return value: "
+                f"interval over all return paths {lon!r}; some return path does not bring the longitude back into [-180, 180]")
+    else:
+        ctx.unk("C02.1", f"{fq}: longitude of the returned coordinate", where,
+                f"the interval analysis bounds it by {lon!r} only, and the bounds combine several varying quantities (possibly correlated): "
+                f"whether values outside [-180, 180] are returned is not decided")
     # auxiliary: the wrap, if any, must not touch the latitude
     lat = res.items[1]
     ctx.analysed["latitude_interval_not_claimed"] = repr(lat)
